@@ -717,7 +717,107 @@ func c17ProxyGen(g *hx.Gen) {
 	}
 }
 
+// ---- c17.wire: the limits middleware behind a real net/http server ----
+//
+// c17.wire  cs  table  path  data  framing  buf      out = <delivered hex> TAB <first error>
+// A real client uploads the body with Content-Length or chunked framing over loopback; the
+// innermost handler drains r.Body with `buf`-byte reads.  How net/http chunks the body is not
+// under our control - by the theorems the delivered bytes and the final error do not depend on it.
+
+func c17WireEval(f []string) (string, []string) {
+	if len(f) != 6 {
+		return "bad-case", nil
+	}
+	cs := f[0] == "1"
+	tb := c17Table(f[1])
+	path := hx.UnHS(f[2])
+	data := hx.UnH(f[3])
+	buf, _ := strconv.Atoi(f[5])
+	if buf < 1 {
+		return "bad-case", nil
+	}
+	cfg, err := c17Setup("limits", c17LimitsText(tb))
+	if err != nil {
+		return "setup-error:" + err.Error(), nil
+	}
+	var got []byte
+	firstErr := "-"
+	done := make(chan struct{})
+	inner := httpserver.HandlerFunc(func(w http.ResponseWriter, r *http.Request) (int, error) {
+		defer close(done)
+		p := make([]byte, buf)
+		for i := 0; i < len(data)+8; i++ {
+			n, err := r.Body.Read(p)
+			got = append(got, p[:n]...)
+			if err != nil {
+				firstErr = c17ErrName(err)
+				break
+			}
+		}
+		w.WriteHeader(200)
+		return 0, nil
+	})
+	h := c17Chain(cfg.Middleware(), inner)
+	c17mu.Lock()
+	defer c17mu.Unlock()
+	old := httpserver.CaseSensitivePath
+	httpserver.CaseSensitivePath = cs
+	defer func() { httpserver.CaseSensitivePath = old }()
+	srv := httptest.NewServer(http.HandlerFunc(func(w http.ResponseWriter, r *http.Request) { h.ServeHTTP(w, r) }))
+	defer srv.Close()
+	var body io.Reader = strings.NewReader(string(data))
+	if f[4] == "chunked" {
+		body = struct{ io.Reader }{body} // hides the length: the client uses chunked transfer encoding
+	}
+	req, err := http.NewRequest("POST", srv.URL+path, body)
+	if err != nil {
+		return "bad-case", nil
+	}
+	tr := &http.Transport{}
+	defer tr.CloseIdleConnections()
+	res, err := tr.RoundTrip(req)
+	if err == nil {
+		io.Copy(io.Discard, res.Body)
+		res.Body.Close()
+	}
+	<-done
+	tag := "within-limit"
+	if firstErr == "big" {
+		tag = "cut-at-limit"
+	}
+	return hx.H(got) + "\t" + firstErr, []string{f[4], tag}
+}
+
+func c17WireGen(g *hx.Gen) {
+	root := hx.HS("/")
+	for _, limit := range []int{1, 3, 8} {
+		for d := -2; d <= 2; d++ {
+			n := limit + d
+			if n < 0 {
+				continue
+			}
+			for _, fr := range []string{"cl", "chunked"} {
+				for _, buf := range []int{1, 2, 5, 4096} {
+					g.Case("0", fmt.Sprintf("%s=%d", root, limit), root, c17Data(n), fr, strconv.Itoa(buf))
+				}
+			}
+		}
+	}
+	tb := fmt.Sprintf("%s=%d,%s=%d,%s=%d", root, 9, hx.HS("/up"), 3, hx.HS("/up/big"), 6)
+	for _, req := range []string{"/", "/up", "/up/x", "/up/big", "/up/big/y", "/UP/BIG"} {
+		for _, n := range []int{2, 3, 4, 6, 7, 9, 10} {
+			g.Case("0", tb, hx.HS(req), c17Data(n), hx.Pick(g.Rng, []string{"cl", "chunked"}), hx.Pick(g.Rng, []string{"1", "3", "512"}))
+		}
+	}
+	for _, limit := range []int{5000, 70000} {
+		for _, d := range []int{-1, 0, 1, 9000} {
+			g.Case("0", fmt.Sprintf("%s=%d", root, limit), root, c17Data(limit+d), hx.Pick(g.Rng, []string{"cl", "chunked"}), hx.Pick(g.Rng, []string{"100", "4096", "32768"}))
+		}
+	}
+}
+
 func init() {
+	hx.Register(&hx.Stream{ID: "C17", Name: "c17.wire", Gen: c17WireGen, Eval: c17WireEval})
 	hx.Register(&hx.Stream{ID: "C17", Name: "c17.reader", Gen: c17ReaderGen, Eval: c17ReaderEval})
 	hx.Register(&hx.Stream{ID: "C17", Name: "c17.scope", Gen: c17ScopeGen, Eval: c17ReaderEval})
 	hx.Register(&hx.Stream{ID: "C17", Name: "c17.match", Gen: c17MatchGen, Eval: c17MatchEval})
